@@ -863,9 +863,92 @@ func (e *env) runTokens(cs Case, idx int) error {
 		os.WriteFile(filepath.Join(dir, "a", "x", "b"), []byte("x"), 0o644)
 		os.WriteFile(filepath.Join(dir, ".helmignore"), []byte(s), 0o644)
 		e.call("loader.LoadDir(.helmignore)", func() error { _, err := loader.LoadDir(dir); return err })
+	case "recursion":
+		return e.runRecursion(cs)
 	default:
 		return fmt.Errorf("unknown token family %q", cs.Fam)
 	}
+	return nil
+}
+
+// recursionBody: the body of a named template for one token of the "recursion" family.
+func recursionBody(tok int) (string, error) {
+	switch {
+	case tok == 1:
+		return "plain text", nil
+	case tok >= 2 && tok <= 4: // include t_j
+		return fmt.Sprintf(`[{{ include "t%d" . }}]`, tok-1), nil
+	case tok >= 5 && tok <= 7: // tpl of a literal that includes t_j
+		return fmt.Sprintf("({{ tpl \"{{ include \\\"t%d\\\" . }}\" . }})", tok-4), nil
+	case tok >= 8 && tok <= 10: // tpl of a value that includes t_j
+		return fmt.Sprintf("<{{ tpl .Values.call%d . }}>", tok-7), nil
+	case tok == 11: // a value that runs tpl on itself
+		return "{{ tpl .Values.selfref . }}", nil
+	}
+	return "", fmt.Errorf("token %d outside the recursion alphabet", tok)
+}
+
+const recursionValues = `call1: '{{ include "t1" . }}'
+call2: '{{ include "t2" . }}'
+call3: '{{ include "t3" . }}'
+selfref: '{{ tpl .Values.selfref . }}'
+`
+
+func (e *env) runRecursion(cs Case) error {
+	var helpers strings.Builder
+	for i, t := range cs.Toks {
+		b, err := recursionBody(t)
+		if err != nil {
+			return err
+		}
+		fmt.Fprintf(&helpers, "{{- define \"t%d\" -}}%s{{- end -}}\n", i+1, b)
+	}
+	e.obs.Input = short([]byte(helpers.String()))
+	files := []*loader.BufferedFile{
+		{Name: "Chart.yaml", Data: []byte("apiVersion: v2\nname: rec\nversion: 0.1.0\n")},
+		{Name: "values.yaml", Data: []byte(recursionValues)},
+		{Name: "templates/_helpers.tpl", Data: []byte(helpers.String())},
+		{Name: "templates/cm.yaml", Data: []byte("apiVersion: v1\nkind: ConfigMap\nmetadata:\n  name: rec\ndata:\n  out: {{ include \"t1\" . | quote }}\n")},
+	}
+	load := func() (*chart.Chart, error) {
+		cp := make([]*loader.BufferedFile, len(files))
+		for i, f := range files {
+			cp[i] = &loader.BufferedFile{Name: f.Name, Data: append([]byte(nil), f.Data...)}
+		}
+		return loader.LoadFiles(cp)
+	}
+	e.call("engine.Render", func() error {
+		ch, err := load()
+		if err != nil {
+			return err
+		}
+		rv, err := chartutil.ToRenderValues(ch, map[string]any{}, chartutil.ReleaseOptions{Name: "r", Namespace: "ns", IsInstall: true}, chartutil.DefaultCapabilities)
+		if err != nil {
+			return err
+		}
+		_, err = engine.Render(ch, rv)
+		return err
+	})
+	e.call("action.Install(dry-run,client-only)", func() error {
+		ch, err := load()
+		if err != nil {
+			return err
+		}
+		cfg := &action.Configuration{Releases: storage.Init(driver.NewMemory()), KubeClient: &kubefake.PrintingKubeClient{Out: io.Discard},
+			Capabilities: chartutil.DefaultCapabilities}
+		in := action.NewInstall(cfg)
+		in.DryRun, in.ClientOnly, in.ReleaseName, in.Namespace, in.Replace = true, true, "r", "ns", true
+		_, err = in.Run(ch, map[string]any{})
+		return err
+	})
+	dir := filepath.Join(e.dir, "rec", "rec")
+	os.RemoveAll(filepath.Join(e.dir, "rec"))
+	for _, f := range files {
+		p := filepath.Join(dir, f.Name)
+		os.MkdirAll(filepath.Dir(p), 0o755)
+		os.WriteFile(p, f.Data, 0o644)
+	}
+	e.call("lint.RunAll", func() error { lint.RunAll(dir, map[string]any{}, "ns"); return nil })
 	return nil
 }
 
